@@ -53,6 +53,9 @@ type ObjSpec struct {
 	Seed   uint64 `json:"seed"`
 	List   bool   `json:"list,omitempty"`
 	Shared bool   `json:"shared,omitempty"`
+	// Tweaks are single-leaf edits applied right after generation: an object with the Seed of an
+	// earlier object plus one tweak is a near twin of it (same sizes, same keys, one leaf different).
+	Tweaks []uint64 `json:"tweaks,omitempty"`
 }
 
 // FaultPlan counts the transport faults planned by the generator (they fire when executed).
